@@ -47,6 +47,7 @@ type w5Body struct {
 	SegmentMaxKB int64 `json:"segment_max_kb,omitempty"`
 	Actors      []w5Actor `json:"actors"`
 	TailMs      int64     `json:"tail_ms"`
+	Hooks       bool      `json:"hooks,omitempty"`
 }
 
 // the users of every W5 run (rendered into the configuration by the harness)
